@@ -526,6 +526,16 @@ theorem C14_delete_listing_race :
         (fun p => match p with | .reader _ _ (.done .keyError) => true | _ => false) = some true := by
   exact ⟨[1, 0, 1, 1, 1], by decide⟩
 
+/-- F34b: the same race, other outcome: for a key that lives in an input file, `keys()` lists the
+directory, the entry is removed before `_hasinput` looks into it, and the directory name is reported
+as a key (`real = false`) — a key nobody stored -/
+theorem C14_delete_listing_phantom :
+    let s0 : DirFS Nat := [(.key "p_q", { out := some (.full 1), inp := some (.full ()) })]
+    let w := actProg true false s0 10 (.remove "p_q")
+    ∃ sched, ((runDir (fun _ => true) { disk := s0, procs := [.writer w, .reader .keys ["p_q"] .start] } sched).procs[1]?).map
+        (fun p => match p with | .reader _ _ (.done (.keys [k])) => !k.real | _ => false) = some true := by
+  exact ⟨[1, 0, 1], by decide⟩
+
 /-- F20: `archives.file_archive(name, cached=False)` ends with `update({})`, a read-modify-write of
 the whole file: an opener that read before a writer's rename and saves after it undoes the write -/
 theorem C14_file_opener_loses_write :
